@@ -74,12 +74,19 @@ class SimEnv:
             return self.loop.run_until_complete(coro)
         signal.setitimer(signal.ITIMER_VIRTUAL, limit)
         try:
-            return self.loop.run_until_complete(coro)
+            res = self.loop.run_until_complete(coro)
+            if getattr(self.net, 'peer_exception', None):
+                raise PeerBug('exception inside a simulated peer (harness bug):\n' + self.net.peer_exception)
+            return res
         except _CpuExceeded:
             raise SimBudgetExceeded('one run used more than %g s of CPU without finishing (busy loop?) at %s' % (limit, where[:1])) from None
         finally:
             signal.setitimer(signal.ITIMER_VIRTUAL, 0)
             signal.signal(signal.SIGVTALRM, old)
+
+
+class PeerBug(RuntimeError):
+    """A simulated peer raised: never a verdict about the code under test (the runner reports HARNESS-ERROR)."""
 
 
 class _CpuExceeded(KeyboardInterrupt):
